@@ -66,12 +66,53 @@ def base_cov(prop, tier, pr, modules, extra_cmd=""):
 
 # ------------------------------------------------------------------------------------------ C09
 
+AMBIENT = [r"\benv\s*::\s*(var|var_os|vars|vars_os|args|args_os|current_dir|temp_dir)\b", r"\bSystemTime\b", r"\bInstant\s*::\s*now\b",
+           r"\bthread_rng\b", r"\bfrom_entropy\b", r"\bOsRng\b", r"\bgetrandom\b", r"\bprocess\s*::\s*id\b",
+           r"\bthread\s*::\s*current\b", r"\bRandomState\b", r"\bis_terminal\b"]
+
+
+def ambient_inputs():
+    """Source obligation of C09's second sentence ("nothing else - time, addresses, hash order - influences the outcome"):
+    the simulation crates read nothing from the process environment, the clock, OS randomness or thread / process identity.
+    Returns (list of (file, line, text), set of environment-variable names read with a literal name)."""
+    import glob
+    import re
+    hits, names = [], set()
+    for f in sorted(glob.glob(os.path.join(C.REPO, "crates", "*", "src", "**", "*.rs"), recursive=True)):
+        try:
+            lines = open(f).read().split("\n")
+        except OSError:
+            continue
+        in_tests = False
+        for i, ln in enumerate(lines):
+            if re.match(r"\s*#\[cfg\(test\)\]", ln):
+                in_tests = True          # test modules sit at the end of the files of this repository
+            code = ln.split("//")[0]
+            if in_tests:
+                continue
+            for pat in AMBIENT:
+                if re.search(pat, code):
+                    hits.append((os.path.relpath(f, C.REPO), i + 1, ln.strip()[:160]))
+                    for m in re.finditer(r"var(?:_os)?\s*\(\s*\"([A-Za-z0-9_]+)\"", code):
+                        names.add(m.group(1))
+                    break
+    # names may be held in constants: any ALL_CAPS string literal next to an env read in the same file
+    for f, _, _ in hits:
+        src = open(os.path.join(C.REPO, f)).read()
+        for m in re.finditer(r"\"([A-Z][A-Z0-9_]{2,})\"", src):
+            names.add(m.group(1))
+    return hits, names
+
+
 def check_c09(tier, seed, verdict, workdir):
     prop = "C09"
     terr = []
     ok, msg = translate("runner.py", "RunnerBranches.lean")
     if not ok:
         terr.append(msg)
+    amb_hits, amb_names = ambient_inputs()
+    if amb_hits:
+        terr.append("the simulation crates read ambient process state: " + "; ".join(f"{f}:{n}: {t}" for f, n, t in amb_hits[:4]))
     modules = ["Bourse.Props.C09"]
     pr = C.prove(prop, modules, clean=(tier == "thorough"))
     shards = 16
@@ -133,6 +174,22 @@ def check_c09(tier, seed, verdict, workdir):
             n_sep += 1
             if base != got:
                 a_found.append(("run in a separate OS process differs", spec))
+    # an environment variable the crates read: the same simulation in a process where it is set
+    if amb_names:
+        specs = [" ".join(l.split(" ")[9:]) for r in res for l in r[4][:4]]
+        for name in sorted(amb_names)[:6]:
+            for spec in specs[:24]:
+                base = [x for x in drive_lines(["sim-run"] + spec.split(" "), workdir, "amb0")[1] if x.startswith("D ")]
+                env = C.env_offline()
+                env[name] = "1"
+                env["VERIF_SCRATCH"] = os.path.join(workdir, "scratch_amb1")
+                p = subprocess.run([C.DRIVE, "sim-run"] + spec.split(" "), stdout=subprocess.PIPE, stderr=subprocess.DEVNULL, env=env, text=True)
+                got = [x for x in p.stdout.split("\n") if x.startswith("D ")]
+                if base and got and base[0].split(" ")[1] != got[0].split(" ")[1]:
+                    a_found.append((f"the run changes when the environment variable {name} is set", spec))
+                    break
+            if any(a[0].startswith("the run changes") for a in a_found):
+                break
     for what, spec in a_found[:3]:
         if what.startswith("derived"):
             continue
@@ -164,6 +221,7 @@ def check_c09(tier, seed, verdict, workdir):
         "op_and_branch_distribution": stats_all,
         "impl_vs_property_failures": len(real_a),
     })
+    cov["ambient_input_scan"] = {"patterns": AMBIENT, "hits": [list(h) for h in amb_hits], "files": "crates/*/src/**/*.rs outside #[cfg(test)]"}
     return cov, ["runtime nondeterminism (addresses, hash order, time) cannot be exhibited by a model: the claim is that the model has no input but "
                  "(seed, parameters) and the implementation equals it on every explored configuration in every execution context tried",
                  "noise/momentum agents sample floats (ziggurat, exp): compared run-to-run by digest, not against the Lean model"]
